@@ -540,9 +540,14 @@ def run(ctx):
     # C09-12: a scanner state left behind by an aborted scan mis-bound the variables of the NEXT query)
     import importlib
     importlib.import_module('props.c16js').run(ctx, THEOREM + ' ; rbql-js: bindings after earlier queries = bindings in a fresh interpreter')
+    # rbql-js: column-name variables from CSV header LINES (query_csv, input and join file) - coverage gaps, notes/covgap.md
+    importlib.import_module('props.cov_jsjoin').run_names(ctx, THEOREM, 80 if ctx.tier == 'quick' else 4000)
 
 
 def replay(ctx, case):
+    if case.get('part') == 'cov_jsjoin':
+        import importlib
+        return importlib.import_module('props.cov_jsjoin').replay(ctx, case, THEOREM)
     if case.get('part') == 'c16js':
         import importlib
         return importlib.import_module('props.c16js').replay(ctx, case, THEOREM)
